@@ -168,6 +168,18 @@ Lemma finding_15_status : finding_status 15 wit_finding_15.
 Proof. apply finding_status_by_check. vm_compute. reflexivity. Qed.
 Lemma finding_16_status : finding_status 16 wit_finding_16.
 Proof. apply finding_status_by_check. vm_compute. reflexivity. Qed.
+Lemma finding_17_status : finding_status 17 wit_finding_17.
+Proof. apply finding_status_by_check. vm_compute. reflexivity. Qed.
+Lemma finding_18_status : finding_status 18 wit_finding_18.
+Proof. apply finding_status_by_check. vm_compute. reflexivity. Qed.
+Lemma finding_19_status : finding_status 19 wit_finding_19.
+Proof. apply finding_status_by_check. vm_compute. reflexivity. Qed.
+Lemma finding_20_status : finding_status 20 wit_finding_20.
+Proof. apply finding_status_by_check. vm_compute. reflexivity. Qed.
+Lemma finding_21_status : finding_status 21 wit_finding_21.
+Proof. apply finding_status_by_check. vm_compute. reflexivity. Qed.
+Lemma finding_22_status : finding_status 22 wit_finding_22.
+Proof. apply finding_status_by_check. vm_compute. reflexivity. Qed.
 
 (* ---- non-vacuity: the documented channel IS reached, inside the guard, in both modes ----------------- *)
 Definition channel_reached (x : bool) : Prop :=
